@@ -91,6 +91,12 @@ func (p *Program) replay(prop string, obls []*Obligation, opts checkOpts, dir st
 		for k, v := range o.Hints {
 			rf.Hints[k] = v
 		}
+		// a discipline obligation about a <language>Mapping variable: stress that language
+		for i, n := range p.langNamesLower() {
+			if strings.Contains(strings.ToLower(o.Name), "/"+n+"mapping") {
+				rf.Hints["race.lang"] = fmt.Sprint(i)
+			}
+		}
 	}
 	// ground obligations carry their witness directly: language and index go to the harness as hints
 	for _, o := range obls {
@@ -192,4 +198,15 @@ func (p *Program) runHarness(prop, obligation string, hints map[string]string, o
 	}
 	_ = runErr
 	return res, cmdline, note
+}
+
+func (p *Program) langNamesLower() []string {
+	var out []string
+	if p.Lang == nil {
+		return out
+	}
+	for _, n := range p.Lang.Names {
+		out = append(out, strings.ToLower(n))
+	}
+	return out
 }
